@@ -104,7 +104,15 @@ class DatagramEndpoint:
 
     async def aclose(self) -> None:
         self.close_nowait()
-        await asyncio.shield(self.__protocol._get_close_waiter())
+        close_waiter = asyncio.ensure_future(self.__protocol._get_close_waiter())
+        try:
+            await asyncio.shield(close_waiter)
+        except asyncio.CancelledError:
+            # transport.close() waits for the queued datagrams to be sent, which never happens if the socket stays full.
+            # aclose() has been cancelled (e.g. aclose_forcefully()): close abruptly, as documented.
+            if not close_waiter.done():
+                self.__transport.abort()
+            raise
 
     def is_closing(self) -> bool:
         return self.__transport.is_closing()
